@@ -9,7 +9,9 @@ The .olean files are what the kernel accepted; `sorry` shows up as the axiom `so
 -/
 open Lean
 
-def isInternal (n : Name) : Bool :=
+def isInternal (n0 : Name) : Bool :=
+  -- a `private theorem` is a user theorem: audit it under its user-facing name (only the `_private.<module>.0` prefix is dropped)
+  let n := (privateToUserName? n0).getD n0
   n.isInternal || n.components.any fun c => match c with
     | .str _ s => s.startsWith "_" || s.startsWith "match_" || s.startsWith "proof_" || s.startsWith "eq_" || s == "brecOn" || s == "below"
         || s == "injEq" || s == "inj" || s == "sizeOf_spec" || s == "noConfusion" || s == "noConfusionType" || s.endsWith "_sizeOf_spec"
